@@ -274,6 +274,17 @@ func runC17Wire(c *fw.Ctx, id string, v refmatch.Variant, rdns, viaHTTP bool, n 
 		}
 		params := traceroute.TracerouteParams{Hostname: target.String(), Port: 33434, Protocol: proto, MinTTL: minTTL, MaxTTL: nhops + 1, Delay: 10,
 			Timeout: 400 * time.Millisecond, TCPMethod: traceroute.TCPConfigSYN, TracerouteQueries: 2, E2eQueries: 1, ReverseDns: rdns, SkipPrivateHops: skip, WantV6: v.V6}
+		if !viaHTTP && n%4 != 2 {
+			// a library caller that leaves optional parameters at their zero value (port: the documented default applies;
+			// method: none for non-TCP runs): the flag travels with the parameters it was given with
+			params.Port = 0
+			if proto != "tcp" {
+				params.TCPMethod = ""
+			}
+			if n%4 == 0 {
+				params.Delay = 0
+			}
+		}
 		env, err := newReqEnv(c, params, target, 33434, false)
 		if err != nil {
 			c.Inconclusive(err.Error())
